@@ -44,6 +44,7 @@ fn main() {
         Some("C04") => std::process::exit(props::c04::run(&report::parse_args(&args[1..]))),
         Some("C06") => std::process::exit(props::c06::run(&report::parse_args(&args[1..]))),
         Some("C07") => std::process::exit(props::c07::run(&report::parse_args(&args[1..]))),
+        Some("C14") => std::process::exit(props::c14::run(&report::parse_args(&args[1..]))),
         Some("C16") => std::process::exit(props::c16::run(&report::parse_args(&args[1..]))),
         Some("C17") => std::process::exit(props::c17::run(&report::parse_args(&args[1..]))),
         Some("--c17-worker") => props::c17::worker(&args[1..]),
